@@ -7,14 +7,15 @@ import agg_common as A
 import core
 import gen_cube as G
 import idx_common as I
+from props import c03
 
 ID = "C13"
 LEAN_MODULES = ["CatiiProps.C13"]
 RULE = ("dimension lists with at least one two- or three-axis index, extra extents 1..4 chosen pairwise different where "
-        "possible (exposes transposed axes), several multi-axis dims at once; every aggregate of C03 on both cube types: "
+        "possible (exposes transposed axes), several multi-axis dims at once, some extra-axis positions entirely at the common value (a slice without entries); every aggregate of C03 on both cube types: "
         "result.shape == extra extents (dimension order, then axis order) + category extents (+ fact columns) and every "
         "block result[j1..jm] == the same aggregate over the dims sliced at (j1..jm), computed by the real code on the "
-        "1-D slices; the model's slices1d labels/slices are compared with the real generator. Non-trivial = at least two "
+        "1-D slices, and == the direct per-cell computation (Fractions) over those slices; the model's slices1d labels/slices are compared with the real generator. Non-trivial = at least two "
         "sub-cubes; distinct by (case, aggregate, cube type)")
 ASSUMPTIONS = ["as C03 (exact dyadic stream)"]
 
@@ -36,6 +37,9 @@ def gen_multi(rng):
             n_multi += 1
         d = G.gen_dense(rng, N, extent, hi)
         c, _ = G.pick_common(rng, d, extent)
+        if nd > 1 and rng.random() < 0.4:      # an extra-axis position where every row holds the common value
+            pos = tuple(rng.randrange(e) for e in hi)
+            d[(slice(None),) + pos] = c
         dense.append(d); commons.append(c); extents.append(extent)
     case = dict(dense=dense, commons=commons, extents=extents, modes=["x"] * k, N=N)
     K = rng.choice([None, None, 2])
@@ -93,6 +97,12 @@ def check(ctx, case, reqs, pend):
                 if bv.shape != sv.shape or not np.array_equal(bm, sm) or not np.array_equal(bv[~bm], sv[~sm]):
                     ctx.oracle_fail("%s.%s: block %s differs from the aggregate over the dims sliced at %s" % (
                         kind, func, js, combo), desc, cls="C13-block")
+                    break
+                # ... and equals the direct per-cell computation over those slices (independent of the cube code)
+                cols1d = [d[(slice(None),) + hi] for d, hi in zip(dense, combo)]
+                cols = [None] if (K is None or func == "count") else list(range(K))
+                exp = {col: A.direct_cells(case, func, cols1d, ishape, col) for col in cols}
+                if not c03.compare(ctx, "%s.%s block %s" % (kind, func, js), bv, bm, exp, ishape, K, 0, desc, "C13-block-direct"):
                     break
     # slices1d of every multi-axis dim: model vs real generator (labels and slices)
     for ix in idxs:
